@@ -30,7 +30,8 @@ RULE = ('Case = a C02-style generated program (subtests, branches, checkpoints, 
         '(phases, subtests, branches, checkpoints, diagnosers, diagnoses, log_records) is present with the same length; (4) '
         'OutputToJSON (allow_nan False/True) parses as strict JSON, equals the base-type view with tuples as lists, attachments '
         'base64-decode to the attached bytes and sha1 matches.  Non-trivial = history with an override, a transformed dimensioned '
-        'value or a read between two writes; or a record with checkpoint/branch/subtest; distinct by canonical case.')
+        'value or a read between two writes; or a record with checkpoint/branch/subtest; distinct by canonical case.  The rich '
+        'phase\'s measurements may carry conditional validators (validate_on) whose diagnosis result an inserted phase has / has not issued.')
 ASSUMPTIONS = ['Deep copies used for the cache-reset re-rendering are made with copy.deepcopy (Attachment copies re-read their file).']
 
 
